@@ -7,7 +7,7 @@ from props import _train as T
 
 LEVEL = "model_checking"
 
-POOL = [("tok", "a/A/X あ/C"), ("tok", "a/B/X あ"), ("tok", "a/A/Y aあ/D/Z"), ("tok", "aあ/D a"), ("tok", "a あ"),
+POOL = [("tok", "a/A/X"), ("tok", "a/B/Y"), ("tok", "a/A/X あ/C"), ("tok", "a/B/X あ"), ("tok", "a/A/Y aあ/D/Z"), ("tok", "aあ/D a"), ("tok", "a あ"),
         ("part", "a/A|あ-a/B/X"), ("tok", "あ/C/X あ/E/X"), ("tok", "1/N"), ("tok", "a/A あ/C/X 1/N/M"),
         ("part", "a/Q あ|1/N"), ("tok", "aa/F/G a/A"), ("tok", "あ//X a//Y")]
 DICTS = [[], [("tok", "b/M/K 1/N")], [("tok", "b/M c//K"), ("tok", "b/Z")]]
@@ -46,7 +46,7 @@ def run(ctx):
                 "checks candidate lists (as sets, each tag once), score-vector sizes, the consequences on prediction for every "
                 "evaluation text, and stored candidate scores = learned quantised classifier on the trainer's tag features; "
                 "non-trivial = corpus with at least one ambiguous token")
-    pool = POOL[:9] if q else POOL
+    pool = POOL[:11] if q else POOL
     corpora = []
     for r in range(1, (3 if q else 4) + 1):
         for comb in itertools.combinations(range(len(pool)), r):
